@@ -1,49 +1,9 @@
 import CocaVerif.Model.Stats
 import CocaVerif.Base.Oracle
 import CocaVerif.Proofs.RCall
+import CocaVerif.Proofs.GoMapLemmas
 
-namespace CocaVerif.GoMap
-variable {κ ν : Type} [BEq κ] [LawfulBEq κ]
 
-theorem mem_keys_filter {k : κ} {l : List κ} {p : κ → Bool} (h : k ∈ l.filter p) : k ∈ l :=
-  (List.mem_filter.mp h).1
-
-omit [LawfulBEq κ] in
-theorem keys_nodup (m : List (κ × ν)) [LawfulBEq κ] : (keys m).Nodup := by
-  induction m with
-  | nil => simp [keys]
-  | cons p r ih =>
-    obtain ⟨k, v⟩ := p
-    simp only [keys, List.nodup_cons]
-    refine ⟨?_, ih.sublist List.filter_sublist⟩
-    intro h
-    have := (List.mem_filter.mp h).2
-    simp at this
-
-theorem entries_keys_nodup (m : List (κ × ν)) : ((entries m).map (·.1)).Nodup := by
-  unfold entries
-  have hk := keys_nodup m
-  generalize keys m = ks at hk
-  induction ks with
-  | nil => simp
-  | cons k ks ih =>
-    rw [List.nodup_cons] at hk
-    rw [List.filterMap_cons]
-    cases hg : get? m k with
-    | none => simpa [hg] using ih hk.2
-    | some v =>
-      simp only [hg, Option.map_some, List.map_cons, List.nodup_cons]
-      refine ⟨?_, ih hk.2⟩
-      intro hmem
-      simp only [List.mem_map, List.mem_filterMap] at hmem
-      obtain ⟨⟨k', v'⟩, ⟨k'', hk'', hsome⟩, rfl⟩ := hmem
-      cases hg' : get? m k'' with
-      | none => simp [hg'] at hsome
-      | some w =>
-        simp only [hg', Option.map_some, Option.some.injEq, Prod.mk.injEq] at hsome
-        exact hk.1 (hsome.1 ▸ hk'')
-
-end CocaVerif.GoMap
 
 namespace CocaVerif.Stats
 
